@@ -60,6 +60,11 @@ func init() {
 			}
 			fmt.Printf("%3d %-28s %s\n", i, ev, res)
 		}
+		for _, l := range r.Next {
+			if strings.HasPrefix(l, "TRACE") {
+				fmt.Println(l)
+			}
+		}
 		fmt.Println("outcome:", r.Outcome, "harnessErr:", r.HarnessErr)
 		fmt.Println("crash:", r.Crash)
 		for _, v := range r.Viol {
